@@ -81,9 +81,10 @@ Print Assumptions C17_as_dict_roundtrip.
 
 (** constant size: gamma_to_natural is the exactly rescaled gamma (shape, rate / 2N), for ANY
     functions satisfying the textbook identities of the incomplete gamma function at 0, of
-    Gamma (recurrence, positivity), of the power function and of the normalising constant *)
+    Gamma (recurrence, positivity), of the power function, of the normalising constant and of the scalar square *)
 Theorem C17_gamma_constant_size :
-  forall (ginc : R -> R -> R) (gam : R -> R) (powr : R -> R -> R) (cnorm : R -> R -> R),
+  forall (ginc : R -> R -> R) (gam : R -> R) (powr : R -> R -> R) (cnorm : R -> R -> R) (sqs : R -> R),
+  (forall x, sqs x = x * x) ->
   (forall a, 0 < a -> ginc a 0 = 0) ->
   (forall x, 0 < x -> 0 < gam x) ->
   (forall x, 0 < x -> gam (x + 1) = x * gam x) ->
@@ -92,7 +93,7 @@ Theorem C17_gamma_constant_size :
   (forall s r, 0 < s -> 0 < r -> cnorm s r * gam s = powr r s) ->
   forall n h shape rate,
     mk_history RNum [n] [] = Some h -> 0 < shape -> 0 < rate ->
-    gamma_to_natural RNum ginc gam powr cnorm h shape rate = Some (shape, rate / (2 * n)).
+    gamma_to_natural RNum ginc gam powr cnorm sqs h shape rate = Some (shape, rate / (2 * n)).
 Proof. exact gamma_constant_size. Qed.
 Print Assumptions C17_gamma_constant_size.
 
@@ -106,6 +107,6 @@ Example C17_nonvacuous :
    as_dict QNum exh = (exh_pop, exh_brk) /\
    to_coalescent QNum exh [-1]%Q = None) /\
   (mk_history QNum [3]%Q [] = Some exh1 /\
-   gamma_to_natural QNum (fun _ _ => 0)%Q ex_gam ex_pow (fun _ _ => 25)%Q exh1 2%Q 5%Q
+   gamma_to_natural QNum (fun _ _ => 0)%Q ex_gam ex_pow (fun _ _ => 25)%Q (fun x => x * x)%Q exh1 2%Q 5%Q
    = Some (2, 5 # 6)%Q).
 Proof. exact (conj C17_example C17_gamma_example). Qed.
